@@ -111,7 +111,8 @@ def check(run):
                     return True
         return False
 
-    norm_terms = [t for t in divisions(lambda n: derives(n, 'mask') and not derives(n, 'observation')) if is_call_to(t.args[2], 'numpy.maximum', 'numpy.sum')]
+    # every division of the mask by a quantity computed from the mask is a normalisation (whatever the spelling of the denominator: sum, count_nonzero, mean * T ...)
+    norm_terms = [t for t in divisions(lambda n: derives(n, 'mask') and not derives(n, 'observation')) if derives(t.args[2], 'mask')]
     if not norm_terms:
         raise AnalysisError('get_power_spectral_density_matrix: mask normalisation not found')
 
